@@ -41,6 +41,7 @@
 -/
 import Flamego.Base.Bytes
 import Flamego.Gen.RouteFacts
+import Flamego.Gen.ConstFacts
 namespace Flamego.Dsl
 
 /-- one single-method registration: `route.AddRoute(routeTrees[method], parse(path), chain(handlers))` -/
@@ -102,6 +103,12 @@ def B (s : String) : Bytes := s.toList.map fun c => c.toNat.toUInt8
 /-- `var httpMethods` of router.go (regenerated from the source on every run) -/
 def httpMethods : List Bytes := Gen.httpMethods.map B
 
+/-- "*": the method text `addRoute` expands to all of `httpMethods` (`if method == "*"`), and the
+    one `Any` passes to `Route` — two literals of router.go, read on every run (Gen/ConstFacts) -/
+def anyMethod : Bytes := Gen.routerAnyMethod
+def anyArg : Bytes := Gen.routerAnyArg
+attribute [simp] anyMethod anyArg Gen.routerAnyMethod Gen.routerAnyArg
+
 def upperByte (c : UInt8) : UInt8 := if 97 ≤ c ∧ c ≤ 122 then c - 32 else c
 
 /-- `strings.ToUpper` on ASCII -/
@@ -132,7 +139,7 @@ def Verb.method : Verb → Bytes
     anything else (also the empty string) = none, which makes `addRoute` panic -/
 def methodsOf (method : Bytes) : List Bytes :=
   let m := upper method
-  if m = B "*" then httpMethods
+  if m = anyMethod then httpMethods
   else if m ∈ httpMethods then [m]
   else []
 
@@ -228,7 +235,7 @@ mutual
 def exec (acc : Acc) : Stmt → St → Out
   | .route m p hs, st => routeCall acc m p hs st
   | .verb v p hs, st => verbCall acc v p hs st
-  | .any p hs, st => routeCall acc (B "*") p hs st
+  | .any p hs, st => routeCall acc anyArg p hs st
   | .routes p ms args, st => routesCall acc p ms args st
   | .combo p common calls, st => comboCalls acc p common calls [] st
   | .group p hs body, st =>
@@ -346,7 +353,7 @@ mutual
 def flatStmt (acc : Acc) (env : Env) : Stmt → FSt → FOut
   | .route m p hs, s => flatRoute acc env m p hs s
   | .verb v p hs, s => flatVerb acc env v p hs s
-  | .any p hs, s => flatRoute acc env (B "*") p hs s
+  | .any p hs, s => flatRoute acc env anyArg p hs s
   | .routes p ms args, s => flatRoutes acc env p ms args s
   | .combo p common calls, s => flatCombo acc env p common calls s
   | .group p hs body, s => flatList acc ⟨env.pfx ++ p, env.hpfx ++ hs⟩ body s
